@@ -357,6 +357,9 @@ def run(ctx):
 
 SELFTEST = {
     "faults": [
+        {"name": "force_real dropped in AntennaSystem.apply_response (generic hand-over rule)", "file": "pyrex/detector.py",
+         "old": "        return self.antenna.apply_response(signal, direction=direction,\n                                           polarization=polarization,\n                                           force_real=force_real)",
+         "new": "        return self.antenna.apply_response(signal, direction=direction,\n                                           polarization=polarization)", "rule": "R08x"},
         {"name": "*= for /= on antenna_factor", "file": "pyrex/antenna.py", "old": "            signal_factor /= self.antenna_factor", "new": "            signal_factor *= self.antenna_factor",
          "rule": ["R08a", "R08b"]},
         {"name": "divide on the voltage arm too", "file": "pyrex/antenna.py", "old": "        if signal.value_type==Signal.Type.voltage:\n            pass",
